@@ -127,7 +127,7 @@ func genE2ETail(r *rand.Rand) e2eCase {
 			ex.Keys = append(ex.Keys, jkey{B: g, Desc: r.Intn(4) == 0})
 		}
 		q += orderByText(ex.Keys, r)
-	} else if r.Intn(4) != 0 {
+	} else if r.Intn(4) != 0 && !(c.Shape == "plain-scan" && r.Intn(3) != 0) {
 		nk := 1 + r.Intn(2)
 		dir := map[string]bool{}
 		for i := 0; i < nk; i++ {
@@ -141,7 +141,7 @@ func genE2ETail(r *rand.Rand) e2eCase {
 		q += orderByText(ex.Keys, r)
 	}
 	var having []*lexer.Token
-	if r.Intn(3) != 0 {
+	if r.Intn(3) != 0 || c.Shape == "plain-scan" {
 		// constants that make sense for the outputs: small ints for counts / sums, nodes for the subject
 		leaf := func() []*lexer.Token {
 			b := outs[r.Intn(len(outs))]
@@ -178,7 +178,7 @@ func genE2ETail(r *rand.Rand) e2eCase {
 	if ex.Tokens == nil {
 		ex.Tokens = []jtok{}
 	}
-	if r.Intn(2) == 0 || (c.Shape == "grouped-two" && r.Intn(2) == 0) {
+	if r.Intn(2) == 0 || (c.Shape == "grouped-two" && r.Intn(2) == 0) || c.Shape == "plain-scan" {
 		l := int64(r.Intn(5))
 		ex.Limit = &l
 		q += fmt.Sprintf(` LIMIT "%d"^^type:int64`, l)
